@@ -801,7 +801,7 @@ def decorate_with_checker(func: CallableT) -> CallableT:
                 violation_error = await _assert_preconditions_async(
                     preconditions=preconditions, resolved_kwargs=resolved_kwargs
                 )
-                if violation_error:
+                if violation_error is not None:
                     raise violation_error
 
                 # Capture the snapshots
@@ -829,7 +829,7 @@ def decorate_with_checker(func: CallableT) -> CallableT:
                     violation_error = await _assert_postconditions_async(
                         postconditions=postconditions, resolved_kwargs=resolved_kwargs
                     )
-                    if violation_error:
+                    if violation_error is not None:
                         raise violation_error
                 finally:
                     _unmark_in_progress(in_progress_token)
@@ -880,7 +880,7 @@ def decorate_with_checker(func: CallableT) -> CallableT:
                     resolved_kwargs=resolved_kwargs,
                     func=func,
                 )
-                if violation_error:
+                if violation_error is not None:
                     raise violation_error
 
                 # Capture the snapshots
@@ -910,7 +910,7 @@ def decorate_with_checker(func: CallableT) -> CallableT:
                         resolved_kwargs=resolved_kwargs,
                         func=func,
                     )
-                    if violation_error:
+                    if violation_error is not None:
                         raise violation_error
                 finally:
                     _unmark_in_progress(in_progress_token)
